@@ -8,7 +8,7 @@ import random as _random
 from hypothesis import strategies as st
 
 from .. import molgen
-from ..core import hyp_run, HarnessError
+from ..core import hyp_run, direct_run, HarnessError
 from ..oracles import wl
 
 ID = 'C01'
@@ -16,7 +16,9 @@ RULE = ('molecule spec (corpus 4200 / curated / repository test literals / const
         'decoration) x 4 drawn re-descriptions from {rebuild with drawn numbers+atom order+bond order/orientation, '
         'copy+remap, chython random writer r/ra/rA/rh/rAh, RDKit random Kekule spelling, independent reference writer}; '
         'non-trivial = molecule has >=2 atoms in one Morgan class or a stereo label or >=2 components AND the '
-        're-description has different numbering/written order; distinct by canonical string')
+        're-description has different numbering/written order; distinct by canonical string'
+        '; also: member kind: after a reaction containing the molecule was formatted, its string / hash / equality must be those of a fresh object.'
+        '; also: the curated witness list is swept completely on every run.')
 ASSUMPTIONS = ['claimed domain decided by an independent colour-refinement/individualisation orbit oracle (vf/oracles/wl.py): '
                'mismatches in gap (a) labelled centre with two same-orbit substituents, or gap (b) cage block with '
                'same-orbit hub atoms, are counted as excluded, not violations',
@@ -40,10 +42,23 @@ def case_strategy(tier):
 def shards(tier, seed):
     n = 16
     per = 600 if tier == 'quick' else 4500
-    return [dict(shard=i, n=per) for i in range(n)]
+    return [dict(shard=i, n=per) for i in range(n)] + [dict(shard='curated', part=i) for i in range(4)]
+
+
+def curated_cases(part, parts, seed, tier):
+    """the curated witnesses are swept completely on every run (drawn cases meet a given witness only now and then): each with the
+    re-descriptions rotating through all kinds"""
+    import random
+    for i, s in enumerate(molgen.curated()):
+        if i % parts == part:
+            rnd = random.Random(seed * 7919 + i)
+            kinds = [KINDS[(i + k) % len(KINDS)] for k in range(4)] + ['rebuild', 'rand:r']
+            yield {'mol': {'k': 'smi', 's': s}, 'desc': [[k, rnd.randrange(2 ** 31)] for k in kinds], 'fmt': FORMATS[i % len(FORMATS)]}
 
 
 def run_shard(shard, tier, seed):
+    if shard['shard'] == 'curated':
+        return direct_run(ID, curated_cases(shard['part'], 4, seed, tier), check_case)
     return hyp_run(ID, case_strategy(tier), check_case, max_examples=shard['n'], seed=seed * 1000 + shard['shard'])
 
 
